@@ -14,6 +14,7 @@ Modes == {"std", "pollall"}
 
 \* quick: N = 2 with cancellation, panic and thread interleavings; N = 3 without
 CfgsQuick ==
+  {[repoll |-> TRUE] @@ Mk(k, v, 2, md, <<>>, Bounds(FALSE, 1, 1, 0, 0, 0, FALSE, FALSE, FALSE)) : k \in Kinds, v \in Variants, md \in Modes} \cup
   {[reuse |-> TRUE] @@ Mk(k, v, 2, md, <<>>, Bounds(FALSE, 1, 1, 0, 1, 0, FALSE, FALSE, FALSE)) : k \in Kinds, v \in Variants, md \in Modes} \cup
   {Mk(k, v, 2, md, <<>>, Bounds(FALSE, 2, 2, 1, 1, 1, TRUE, TRUE, TRUE)) : k \in Kinds, v \in Variants, md \in Modes}
   \cup {Mk(k, v, 2, md, <<1>>, Bounds(FALSE, 1, 2, 1, 1, 1, FALSE, FALSE, FALSE)) : k \in Kinds, v \in Variants, md \in Modes}
